@@ -381,6 +381,7 @@ def _exec_npz(run, rd):
     del td
     gc.collect()
     run.probe("crash")
+    run.fault("crash-restart")
     if target == "path_noext":
         # numpy appends '.npz': reading back under the name that was written is not possible (observation)
         ok, _res = _observe(run, "load extension-less name", lambda: load_npz_to_tensordict(path),
@@ -588,6 +589,7 @@ def _exec_genfile(run, rd):
     # ---- crash: nothing of the writer survives but the files ----------------------------------------------
     gc.collect()
     run.probe("crash")
+    run.fault("crash-restart")
 
     cfg2 = copy.deepcopy(cfg)
     if consumer == "dataset_val":
@@ -710,6 +712,7 @@ def _exec_sched(run, rd):
         raise StopRun()
     gc.collect()
     run.probe("crash")
+    run.fault("crash-restart")
     # ---- read back --------------------------------------------------------------------------------------
     consumer = plan["consumer"]
 
@@ -990,6 +993,7 @@ def _exec_ckpt(run, rd):
     del model, trainer, policy, env, rp, baseline
     gc.collect()
     run.probe("crash")
+    run.fault("crash-restart")
     fs = PU.SimFS()
     fs.import_path("model.ckpt", path)
     lb = plan["load_baseline"]
